@@ -265,6 +265,24 @@ def gen_src_work():
     return p.returncode, p.stdout
 
 
+def gen_c11():
+    """C11: what C01 regenerates (Properties/C11 builds on the round trip of C01: SrcCodec, SrcUtils) + SrcWork.lean (adds commute)"""
+    rc, out = gen_c01()
+    if rc != 0:
+        return rc, out
+    rc2, out2 = gen_src_work()
+    return rc2, out + out2
+
+
+def gen_c05():
+    """C05: Statics.lean (global state, ambient inputs) + SrcWork.lean (reset forgets the bookkeeping)"""
+    rc, out = gen_statics()
+    if rc != 0:
+        return rc, out
+    rc2, out2 = gen_src_work()
+    return rc2, out + out2
+
+
 TECH_TRW = ("Lean 4 machine-checked proof; the bookkeeping methods of EncoderWork / DecoderWork and enum Error are TRANSLATED from the "
             "current Rust source on every run (translate/rs2lean_work.py -> Gen/SrcWork.lean, state-passing, checked usize, abstract "
             "shard memory) and theorems are re-checked on the translation; the rest on a hand-written model + differential "
@@ -339,7 +357,11 @@ PROPS = {
         "contents of the working memory and any recycled work space (forall stale stale'); data path reads only inserted/zero-filled positions. "
         "Direct oracle: reused object under the poison hook vs fresh object, round by round.",
         "cases = histories (2-8 rounds, resets across counts/sizes/rates, renew through into_parts, failed calls); each round compared with a fresh object",
-        pre_lean=gen_statics,
+        pre_lean=gen_c05,
+        technique=("Lean 4 machine-checked proof; the inventory of global state / ambient inputs (translate/statics.py -> Gen/Statics.lean) and the "
+                   "bookkeeping methods of the work objects (translate/rs2lean_work.py -> Gen/SrcWork.lean: `reset` forgets every counter and bit) "
+                   "are REGENERATED from the current Rust source on every run and the theorems re-checked on them; stale-memory independence on a "
+                   "hand-written model + differential correspondence with the crate (poison hook)"),
         design_ref="DESIGN.md §6 C05",
     ),
     "C06": P(
@@ -400,6 +422,11 @@ PROPS = {
         "originals never reported; all given => empty. Surplus: both a sufficient set and any superset restore the encoded originals (C01 round trip). "
         "Direct oracle: permutations and supersets on the implementation.",
         "cases = shard sets x orders/supersets; compared within each group",
+        pre_lean=gen_c11,
+        technique=("Lean 4 machine-checked proof; the shard-adding methods of DecoderWork are TRANSLATED from the current Rust source on every run "
+                   "(translate/rs2lean_work.py -> Gen/SrcWork.lean) and proved to commute (two accepted adds in either order give the same state); the "
+                   "codec bodies and decoder helpers behind the round trip are translated as for C01; the rest on a hand-written model + differential "
+                   "correspondence with the crate"),
         design_ref="DESIGN.md §6 C11",
     ),
     "C12": P(
@@ -418,6 +445,7 @@ PROPS = {
         "encode a ^ encode b, encode(c.a) = c.encode a, encode 0 = 0 for every configuration, rate, schedule, lane count; same for decode with a "
         "fixed received set. Direct oracle: the three relations on the implementation with scalar multiplication done by rsmodel.",
         "cases = (configuration, data pair, constant); relations checked on implementation outputs",
+        pre_lean=gen_src_codec, technique=TECH_TRC,
         design_ref="DESIGN.md §6 C13",
     ),
     "C14": P(
